@@ -116,6 +116,36 @@ inline int SUNLinSolSolve(SUNLinearSolver, SUNMatrix A, N_Vector x, N_Vector b, 
 // ---------------------------------------------------------------- scripted CVODE mock
 #define CV_ADAMS 1
 #define CV_BDF 2
+// return flags of cvode.h
+#define CV_SUCCESS 0
+#define CV_TSTOP_RETURN 1
+#define CV_ROOT_RETURN 2
+#define CV_WARNING 99
+#define CV_TOO_MUCH_WORK -1
+#define CV_TOO_MUCH_ACC -2
+#define CV_ERR_FAILURE -3
+#define CV_CONV_FAILURE -4
+#define CV_LINIT_FAIL -5
+#define CV_LSETUP_FAIL -6
+#define CV_LSOLVE_FAIL -7
+#define CV_RHSFUNC_FAIL -8
+#define CV_FIRST_RHSFUNC_ERR -9
+#define CV_REPTD_RHSFUNC_ERR -10
+#define CV_UNREC_RHSFUNC_ERR -11
+#define CV_RTFUNC_FAIL -12
+#define CV_NLS_INIT_FAIL -13
+#define CV_NLS_SETUP_FAIL -14
+#define CV_CONSTR_FAIL -15
+#define CV_NLS_FAIL -16
+#define CV_MEM_FAIL -20
+#define CV_MEM_NULL -21
+#define CV_ILL_INPUT -22
+#define CV_NO_MALLOC -23
+#define CV_BAD_K -24
+#define CV_BAD_T -25
+#define CV_BAD_DKY -26
+#define CV_TOO_CLOSE -27
+#define CV_VECTOROP_ERR -28
 #define CV_NORMAL 1
 #define CV_ONE_STEP 2
 typedef int (*CVRhsFn)(realtype, N_Vector, N_Vector, void *);
